@@ -149,6 +149,19 @@ func genC01(r *sim.Rng) *c01Case {
 		c.Echo = r.Intn(4)
 		c.WrapEvery = []int{0, 8, 20, 80}[r.Intn(4)]
 	}
+	if !c.Exact && c.Depth != 0 && c.Depth <= 200 && r.Chance(1, 2) {
+		// an input no longer than the search depth whose echo, as the terminal wraps it, IS longer: the
+		// window in which the echo is searched is sized by the input (twice its length), not by the depth
+		c.Echo = 1 + r.Intn(3)
+		c.WrapEvery = []int{8, 20}[r.Intn(2)]
+		k := r.Intn(len(c.Cmds))
+		want := c.Depth - r.Intn(10)
+		cmd := "show running-config | include "
+		for len(cmd) < want-1 {
+			cmd += string(rune('a' + len(cmd)%26))
+		}
+		c.Cmds[k] = cmd + "!"
+	}
 	c.NoStrip = r.Chance(1, 3)
 	c.ReadSize = []int{8192, 8192, 64, 16, 65535}[r.Intn(5)]
 	switch r.Intn(6) {
